@@ -688,7 +688,7 @@ std::string deep_dump(QPDFObjectHandle oh, int depth, std::set<QPDFObjGen>& path
     std::string r = ind ? "@" : "";
     if (oh.isStream()) {
         r += "stream" + deep_dump(oh.getDict().shallowCopy(), depth + 1, path) + ":";
-        r += safe([&] { auto b = oh.getStreamData(qpdf_dl_none); return hex(std::string(reinterpret_cast<char const*>(b->getBuffer()), b->getSize())); });
+        r += safe([&] { auto b = oh.getStreamData(qpdf_dl_generalized); return hex(std::string(reinterpret_cast<char const*>(b->getBuffer()), b->getSize())); });
     } else if (oh.isArray()) {
         r += "[";
         for (auto const& it: oh.getArrayAsVector()) r += deep_dump(it, depth + 1, path) + " ";
@@ -779,4 +779,374 @@ static Reg r_isocopy("isocopy", [](std::vector<std::string> const& a) -> std::st
         }
         return "addr=" + std::string(addr == "moved" ? "moved" : "reused") + out;
     });
+});
+
+// ------------------------------------------------------------------------------------------------------
+//  isox <history>
+//  Storage that several parties can reach (model: coq/Sys/HeapShare.v).  Party 0 is the program (handles that belong
+//  to no document), parties 1.. are documents.  Alphabet (d = acting party):
+//    D,d            QPDF q; q.emptyPDF()                  F,d,<imm>    open the fixed file [setImmediateCopyFrom(true)]
+//    P,d,r,toks     variable r := parse([&q,] text)       (d = 0: no context -> an owner-less "template" value)
+//    H,d,r,hx       variable r := handle                  M,d,hx       makeIndirectObject
+//    K,d,hx,key,vx / A,d,hx,vx / S,d,hx,n,vx   replaceKey / appendItem / setArrayItem; vx may name a variable obtained
+//                   from ANOTHER party (a template, a direct value of another document) when that value is pure
+//    R,d,hx,key / E,d,hx,n   removeKey / eraseItem        X,d  ~QPDF       W,d  write (result: hash)
+//    N,d,r,hex      variable r := q.newStream(data)       Z,d,hx,hex   hx.replaceStreamData(string)
+//    C,d,s,hx,r     variable r := q.copyForeignObject(handle hx of document s)
+//    G,d,hx,b / g,d,hx,b     buffer variable b := hx.getRawStreamData() / hx.getStreamData()
+//    V,d,b          buffer variable b := QPDFWriter(q) memory output (getBufferSharedPointer)
+//    U,0,b,pos,byte buffer variable b ->getBuffer()[pos] = byte       (the program edits a Buffer the library handed out)
+//    B,d,hx,b       hx.replaceStreamData(buffer variable b, {}, {})    (from then on the Buffer belongs to d's stream)
+//  Guards (same in the model; a failed guard gives "skip"): an in-place edit / makeIndirectObject / data replacement
+//  only of an object no other party can see; no cycles among direct containers; /Length is never touched or shown.
+//  After every step: every object of every live document (unparse; streams: dictionary + raw data), JSON hash, hash of
+//  the bytes QPDFWriter produces, every variable, every buffer variable, and the fresh-parse probes.
+#include <qpdf/QPDFObjectHandle_private.hh>
+#include <list>
+namespace {
+
+std::string hex0(std::string const& s) {
+    static char const* d = "0123456789abcdef";
+    std::string r;
+    for (unsigned char c: s) { r.push_back(d[c >> 4]); r.push_back(d[c & 15]); }
+    return r;
+}
+
+std::string strip_length(std::string s) {
+    size_t i = 0;
+    while ((i = s.find("/Length ", i)) != std::string::npos) {
+        size_t j = i + 8;
+        while (j < s.size() && isdigit(static_cast<unsigned char>(s[j]))) ++j;
+        if (j > i + 8 && j < s.size() && s[j] == ' ') s.erase(i, j + 1 - i); else i = j;
+    }
+    return s;
+}
+
+std::string fixed_file() {
+    std::vector<std::string> objs = {
+        "<< /Type /Catalog /Pages 2 0 R >>",
+        "<< /Type /Pages /Kids [ ] /Count 0 >>",
+        "<< /A 7 /Length 5 >>\nstream\nhello\nendstream",
+        "<< /K [ 1 2 ] /Length 3 >>\nstream\nabc\nendstream",
+        "<< /A [ 1 << /B 2 >> ] /C /D >>"};
+    std::string out = "%PDF-1.4\n";
+    std::vector<size_t> offs;
+    for (size_t i = 0; i < objs.size(); ++i) {
+        offs.push_back(out.size());
+        out += std::to_string(i + 1) + " 0 obj\n" + objs[i] + "\nendobj\n";
+    }
+    size_t xref = out.size();
+    out += "xref\n0 " + std::to_string(objs.size() + 1) + "\n0000000000 65535 f \n";
+    for (auto o: offs) { char b[32]; snprintf(b, sizeof b, "%010zu 00000 n \n", o); out += b; }
+    out += "trailer\n<< /Size " + std::to_string(objs.size() + 1) + " /Root 1 0 R >>\nstartxref\n" + std::to_string(xref) + "\n%%EOF\n";
+    return out;
+}
+
+struct XWorld {
+    static constexpr int FUEL = 40;
+    // a destroyed document's storage is never given back: a direct object that was parsed with the document as context
+    // and never attached to it keeps its QPDF* after ~QPDF, and checkOwnership compares that pointer; with address
+    // reuse the outcome of a later insertion would depend on the allocator (identity by address is part "copy")
+    struct InPlace { void operator()(QPDF* q) const { q->~QPDF(); } };
+    std::map<int, std::unique_ptr<QPDF, InPlace>> docs;
+    std::map<int, std::pair<int, QPDFObjectHandle>> roots;   // variable -> (party it was obtained from, handle)
+    struct Held { bool given; std::shared_ptr<Buffer> buf; bool opaque; std::string shadow; };
+    std::map<int, Held> held;
+    std::list<std::string> filedata;
+    int ndocs = 1;
+
+    QPDF* doc(int d) { auto it = docs.find(d); return it == docs.end() ? nullptr : it->second.get(); }
+
+    static bool plain(QPDFObjectHandle const& h) { return !(h.isStream() || h.isReserved() || h.isDestroyed()); }
+
+    // the objects one unparse reads: the object, its direct descendants, the indirect items themselves
+    static void clos(QPDFObjectHandle h, int fuel, std::vector<QPDFObjectHandle>& out) {
+        out.push_back(h);
+        if (fuel == 0) return;
+        auto kid = [&](QPDFObjectHandle const& e) { if (!e.isIndirect()) clos(e, fuel - 1, out); else out.push_back(e); };
+        if (h.isDestroyed() || h.isReserved()) return;
+        if (h.isStream()) clos(h.getDict(), fuel - 1, out);
+        else if (h.isArray()) { for (auto const& e: h.getArrayAsVector()) kid(e); }
+        else if (h.isDictionary()) { for (auto const& kv: h.getDictAsMap()) kid(kv.second); }
+    }
+    static bool member(QPDFObjectHandle const& t, std::vector<QPDFObjectHandle> const& v) {
+        for (auto const& x: v) if (x.isSameObjectAs(t)) return true;
+        return false;
+    }
+    std::vector<QPDFObjectHandle> party_cells(int p) {
+        std::vector<QPDFObjectHandle> out;
+        if (QPDF* q = doc(p)) {
+            int n = static_cast<int>(q->getObjectCount());
+            for (int id = 3; id <= n; ++id) clos(q->getObject(id, 0), FUEL + 1, out);
+        }
+        for (auto& [r, pr]: roots) if (pr.first == p) clos(pr.second, FUEL + 1, out);
+        return out;
+    }
+    bool shared(int a, QPDFObjectHandle const& t) {
+        for (int p = 0; p < ndocs; ++p) if (p != a && member(t, party_cells(p))) return true;
+        return false;
+    }
+    static bool pure(QPDFObjectHandle const& v) {
+        std::vector<QPDFObjectHandle> c; clos(v, FUEL, c);
+        for (auto const& x: c) if (x.isIndirect() || !plain(x)) return false;
+        return true;
+    }
+    static bool copyable(QPDFObjectHandle const& t) {
+        if (t.isStream()) return pure(t.getDict()) && !qpdf::Stream(t).getStreamDataProvider();
+        if (t.isNull() || !plain(t)) return false;
+        std::vector<QPDFObjectHandle> c; clos(t, FUEL, c);
+        for (auto const& x: c) if (!x.isSameObjectAs(t) && (x.isIndirect() || !plain(x))) return false;
+        return true;
+    }
+
+    // handle expression evaluated on behalf of party d; any: a variable of another party may be named (cross := true)
+    bool eval(int d, std::string const& e, QPDFObjectHandle& out, bool any, bool& cross) {
+        auto parts = split(e, '/');
+        std::string const& h = parts[0];
+        if (h.empty()) return false;
+        QPDFObjectHandle cur;
+        cross = false;
+        switch (h[0]) {
+        case 'r': {
+            auto it = roots.find(std::stoi(h.substr(1)));
+            if (it == roots.end()) return false;
+            if (it->second.first != d) { if (!any) return false; cross = true; }
+            cur = it->second.second; break; }
+        case 'o': {
+            QPDF* q = doc(d); if (!q) return false;
+            int id = std::stoi(h.substr(1));
+            if (id < 3 || id > static_cast<int>(q->getObjectCount())) return false;
+            cur = q->getObject(id, 0); break; }
+        case 'I': cur = QPDFObjectHandle::newInteger(std::stoll(h.substr(1))); break;
+        case 'U': cur = QPDFObjectHandle::newNull(); break;
+        case 'Y': cur = QPDFObjectHandle::newName("/" + h.substr(1)); break;
+        case 'B': cur = QPDFObjectHandle::newArray(); break;
+        case 'G': cur = QPDFObjectHandle::newDictionary(); break;
+        default: return false;
+        }
+        for (size_t i = 1; i < parts.size(); ++i) {
+            std::string const& s = parts[i];
+            if (s.empty()) return false;
+            if (s[0] == 'i') {
+                int n = std::stoi(s.substr(1));
+                if (!cur.isArray() || n < 0 || n >= cur.getArrayNItems()) return false;
+                cur = cur.getArrayItem(n);
+            } else if (s[0] == 'k') {
+                if (!cur.isDictionary()) return false;
+                cur = cur.getKey("/" + s.substr(1));
+            } else if (s[0] == 'd') {
+                if (!cur.isStream()) return false;
+                cur = cur.getDict();
+            } else return false;
+        }
+        out = cur;
+        return true;
+    }
+
+    static std::string raw_data(QPDFObjectHandle oh) {
+        Pl_Buffer p("raw");
+        (void)oh.pipeStreamData(&p, 0, qpdf_dl_none, true, false);   // the result only says whether filtering was done
+        return p.getString();
+    }
+    static std::string show(QPDFObjectHandle oh) {
+        if (oh.isStream())
+            return "S" + safe([&] { return strip_length(oh.getDict().unparseResolved()); }) + ":" + safe([&] { return hex0(raw_data(oh)); });
+        return safe([&] { return strip_length(oh.unparseResolved()); });
+    }
+    static std::string written(QPDF& q) {
+        QPDFWriter w(q);
+        w.setOutputMemory();
+        w.setStaticID(true);
+        w.setPreserveUnreferencedObjects(true);
+        w.write();
+        auto b = w.getBufferSharedPointer();
+        return std::string(reinterpret_cast<char const*>(b->getBuffer()), b->getSize());
+    }
+
+    std::string dump() {
+        std::string out;
+        for (auto& [d, q]: docs) {
+            out += "d" + std::to_string(d) + "{";
+            std::string js;
+            int n = static_cast<int>(q->getObjectCount());
+            for (int id = 3; id <= n; ++id) {
+                auto oh = q->getObject(id, 0);
+                out += std::to_string(id) + "=" + show(oh) + ";";
+                js += safe([&] { return oh.getJSON(2, true).unparse(); }) + ";";
+            }
+            out += "}j" + hx64(fnv(js)) + "w" + safe([&] { return hx64(fnv(written(*q))); }) + " ";
+        }
+        for (auto& [r, p]: roots) {
+            auto& oh = p.second;
+            out += "r" + std::to_string(r) + "@" + std::to_string(p.first) + "=" + safe([&] { return strip_length(oh.unparse()); }) + "~" +
+                show(oh) + "j" + hx64(fnv(safe([&] { return oh.getJSON(2, true).unparse(); }))) + " ";
+        }
+        for (auto& [r, h]: held) {
+            std::string cur(reinterpret_cast<char const*>(h.buf->getBuffer()), h.buf->getSize());
+            out += "b" + std::to_string(r) + "=" + (h.opaque ? (cur == h.shadow ? std::string("w") : std::string("CHANGED")) : hex0(cur)) + " ";
+        }
+        out += "F=" + safe([&] { return QPDFObjectHandle::parse("[ null 1 << /K null /L [ null ] >> ]").unparse(); });
+        return out;
+    }
+
+    // "<letter>!" performs the operation although the library lets another party see the target (used by c20.py only when
+    // the model says that no other party can: then the sharing itself is the defect and its effect is what we want to see)
+    bool force = false;
+    bool shared_guard(int a, QPDFObjectHandle const& t, std::string& why) {
+        if (!shared(a, t)) return false;
+        if (force) return false;
+        why = "skip^shared";
+        return true;
+    }
+
+    std::string step(std::string const& op) {
+        auto f = split(op, ',');
+        char k = f.at(0).at(0);
+        force = f.at(0).size() > 1 && f.at(0)[1] == '!';
+        int d = f.size() > 1 ? std::stoi(f[1]) : -1;
+        QPDF* q = doc(d);
+        QPDFObjectHandle h, v;
+        bool cross = false, c2 = false;
+        std::string why;
+        switch (k) {
+        case 'D': case 'F':
+            if (d != ndocs || d == 0) return "skip";
+            docs[d] = std::unique_ptr<QPDF, InPlace>(new (::operator new(sizeof(QPDF))) QPDF());
+            if (k == 'D') docs[d]->emptyPDF();
+            else {
+                docs[d]->setSuppressWarnings(true);
+                if (f.at(2) == "1") docs[d]->setImmediateCopyFrom(true);
+                filedata.push_back(fixed_file());
+                docs[d]->processMemoryFile("fixed", filedata.back().data(), filedata.back().size());
+            }
+            ++ndocs;
+            return "ok";
+        case 'P': {
+            int r = std::stoi(f.at(2));
+            if (!(d == 0 || q) || r / 10 != d) return "skip";
+            std::string text = tokens_to_pdf(f.at(3));
+            if (text.empty() || (text[0] != '[' && text[0] != '<')) return "skip";
+            roots[r] = {d, d == 0 ? QPDFObjectHandle::parse(text) : QPDFObjectHandle::parse(q, text)};
+            return "ok"; }
+        case 'H':
+            if (std::stoi(f.at(2)) / 10 != d || d >= ndocs || !eval(d, f.at(3), h, false, cross)) return "skip";
+            roots[std::stoi(f.at(2))] = {d, h};
+            return "ok";
+        case 'M':
+            if (!q || !eval(d, f.at(2), h, false, cross)) return "skip";
+            if (h.isIndirect()) return "skip";
+            if (shared_guard(d, h, why)) return why;
+            q->makeIndirectObject(h);
+            return "ok";
+        case 'K': case 'A': case 'S': {
+            std::string const& vx = f.at(k == 'K' ? 4 : (k == 'A' ? 3 : 4));
+            if (!eval(d, f.at(2), h, false, cross) || !eval(d, vx, v, true, c2)) return "skip";
+            std::vector<QPDFObjectHandle> cv; clos(v, FUEL, cv);
+            if (vx.find("/d") != std::string::npos || member(h, cv) || (c2 && !pure(v))) return "skip";
+            if (k == 'K' ? (f.at(3) == "L" || !h.isDictionary()) : (!h.isArray() || (k == 'S' && (std::stoi(f.at(3)) < 0 || std::stoi(f.at(3)) >= h.getArrayNItems())))) return "skip";
+            if (shared_guard(d, h, why)) return why;
+            if (k == 'K') {
+                if (f.at(3) == "L" || !h.isDictionary()) return "skip";
+                h.replaceKey("/" + f.at(3), v);
+            } else if (k == 'A') {
+                if (!h.isArray()) return "skip";
+                h.appendItem(v);
+            } else {
+                int n = std::stoi(f.at(3));
+                if (!h.isArray() || n < 0 || n >= h.getArrayNItems()) return "skip";
+                h.setArrayItem(n, v);
+            }
+            return "ok"; }
+        case 'R': case 'E': {
+            if (!eval(d, f.at(2), h, false, cross)) return "skip";
+            if (k == 'R' ? (f.at(3) == "L" || !h.isDictionary()) : (!h.isArray() || std::stoi(f.at(3)) < 0 || std::stoi(f.at(3)) >= h.getArrayNItems())) return "skip";
+            if (shared_guard(d, h, why)) return why;
+            if (k == 'R') {
+                if (f.at(3) == "L" || !h.isDictionary()) return "skip";
+                h.removeKey("/" + f.at(3));
+            } else {
+                int n = std::stoi(f.at(3));
+                if (!h.isArray() || n < 0 || n >= h.getArrayNItems()) return "skip";
+                h.eraseItem(n);
+            }
+            return "ok"; }
+        case 'X':
+            if (!q) return "skip";
+            docs.erase(d);
+            return "ok";
+        case 'W':
+            if (!q) return "skip";
+            return "ok:" + hx64(fnv(written(*q)));
+        case 'N': {
+            int r = std::stoi(f.at(2));
+            if (!q || r / 10 != d) return "skip";
+            roots[r] = {d, q->newStream(unhex(f.at(3)))};
+            return "ok"; }
+        case 'Z':
+            if (!eval(d, f.at(2), h, false, cross) || !h.isStream()) return "skip";
+            if (shared_guard(d, h, why)) return why;
+            h.replaceStreamData(unhex(f.at(3)), QPDFObjectHandle(), QPDFObjectHandle());
+            return "ok";
+        case 'C': {
+            int s = std::stoi(f.at(2)), r = std::stoi(f.at(4));
+            QPDF* sq = doc(s);
+            if (!q || !sq || s == d || r / 10 != d || !eval(s, f.at(3), h, false, cross)) return "skip";
+            if (!h.isIndirect() || h.getOwningQPDF() != sq || !copyable(h)) return "skip";
+            roots[r] = {d, q->copyForeignObject(h)};
+            return "ok"; }
+        case 'G': case 'g': {
+            if (!eval(d, f.at(2), h, false, cross) || !h.isStream()) return "skip";
+            auto b = (k == 'G') ? h.getRawStreamData() : h.getStreamData(qpdf_dl_generalized);
+            held[std::stoi(f.at(3))] = Held{false, b, false, std::string(reinterpret_cast<char const*>(b->getBuffer()), b->getSize())};
+            return "ok"; }
+        case 'V': {
+            if (!q) return "skip";
+            QPDFWriter w(*q);
+            w.setOutputMemory();
+            w.setStaticID(true);
+            w.setPreserveUnreferencedObjects(true);
+            w.write();
+            auto b = w.getBufferSharedPointer();
+            held[std::stoi(f.at(2))] = Held{false, b, true, std::string(reinterpret_cast<char const*>(b->getBuffer()), b->getSize())};
+            return "ok"; }
+        case 'U': {
+            auto it = held.find(std::stoi(f.at(2)));
+            if (d != 0 || it == held.end() || it->second.given) return "skip";
+            size_t pos = static_cast<size_t>(std::stoi(f.at(3)));
+            if (pos >= it->second.buf->getSize()) return it->second.opaque ? "ok" : "skip";
+            it->second.buf->getBuffer()[pos] = static_cast<unsigned char>(std::stoi(f.at(4)));
+            it->second.shadow[pos] = static_cast<char>(std::stoi(f.at(4)));
+            return "ok"; }
+        case 'B': {
+            auto it = held.find(std::stoi(f.at(3)));
+            if (!eval(d, f.at(2), h, false, cross) || !h.isStream() || it == held.end()) return "skip";
+            if (it->second.given || it->second.opaque) return "skip";
+            if (shared_guard(d, h, why)) return why;
+            h.replaceStreamData(it->second.buf, QPDFObjectHandle(), QPDFObjectHandle());
+            it->second.given = true;
+            return "ok"; }
+        default:
+            return "?op";
+        }
+    }
+
+    std::string run(std::string const& hist) {
+        std::string out = "init|" + dump();
+        for (auto const& op: split(hist, ';')) {
+            if (op.empty()) continue;
+            std::string res;
+            try { res = step(op); }
+            catch (std::logic_error const& e) { res = "!L"; }
+            catch (std::exception const& e) { res = "!R"; }
+            out += "#" + res + "|" + dump();
+        }
+        return out;
+    }
+};
+
+} // namespace
+
+static Reg r_isox("isox", [](std::vector<std::string> const& a) -> std::string {
+    std::string hist = a.empty() ? "" : a[0];
+    return in_child([hist] { XWorld w; return w.run(hist); });
 });
